@@ -17,6 +17,12 @@
                  installs version cur+1.  REPAIRED: it first waits for the old
                  VM's Run goroutine to return, i.e. the event is enabled only
                  when the old VM is idle.  Before the repair it does not wait.
+     ReloadRefused p  CompileAndRun of a version that compiles but one of whose
+                 metrics the store refuses (kind clash with another program):
+                 REPAIRED code has by then stopped the old VM under the write
+                 lock (same enabling condition as Reload) and restarts it - the
+                 old version keeps running, nothing else changes; the code
+                 before the repair returned before touching the handle.
    [assigned] is a ghost log: the version that was installed when the line was
    handed over. *)
 From V Require Export Base.Bytes.
@@ -42,7 +48,8 @@ Inductive event :=
 | Take (w : bool)
 | FanOut (p : N)
 | Process (p v : N)
-| Reload (p : N).
+| Reload (p : N)
+| ReloadRefused (p : N).
 
 Definition updp (f : N -> pstate) (k : N) (v : pstate) : N -> pstate :=
   fun x => if N.eqb x k then v else f x.
@@ -101,6 +108,9 @@ Definition step (repaired : bool) (s : state) (e : event) : option state :=
       let q := ps s p in
       if locked s || (repaired && has_ver (cur q) (busy q)) then None
       else Some (mkS (updp (ps s) p (mkP (cur q + 1) (busy q) (log q) (assigned q))) (nxt s) (infl s) false)
+  | ReloadRefused p =>
+      let q := ps s p in
+      if locked s || (repaired && has_ver (cur q) (busy q)) then None else Some s
   end.
 
 Fixpoint run (repaired : bool) (s : state) (es : list event) : option state :=
